@@ -1,7 +1,7 @@
 (* Run.C14 — driver for the generated correspondence cases of C14 (and, re-used, C13).
    Texts are written by the harness as UTF-8 Coq string literals and decoded here to code points. *)
 From Coq Require Import ZArith NArith String Ascii List Bool.
-From JMCV Require Import Model.Tok Model.TokPos Run.Common.
+From JMCV Require Import Model.Tok Model.TokPos Model.TokDerived Run.Common.
 Import ListNotations.
 Open Scope Z_scope.
 
@@ -106,6 +106,14 @@ Definition pcase_ok (e : env) (c : pcase) : bool :=
   | _ => false
   end.
 Definition pmismatches (e : env) (l : list pcase) : list nat := bad_indices (pcase_ok e) l.
+
+(* ---- sign tokens split off `key=-N` / `key=+N` by parse_func_args: the real sign token == split_sign d_sign
+        of the real operator token (which the tokenizer tie has compared with the model) *)
+Record scase := SC { s_eq : rtok; s_sign : rtok }.
+Definition tok_of_r (r : rtok) : token := mkTok (r_type r) (r_line r) (r_col r) (utf8 (r_str r)) (r_bt r).
+Definition scase_ok (c : scase) : bool :=
+  is_signed_eq (tok_of_r (s_eq c)) && tok_eqb (split_sign d_sign (tok_of_r (s_eq c))) (s_sign c).
+Definition smismatches (l : list scase) : list nat := bad_indices scase_ok l.
 
 (* for messages *)
 Definition show_model (e : env) (c : tcase) : result (list (list (ttype * Z * Z * nat))) :=
